@@ -1,2 +1,11 @@
 #!/bin/sh
-exit 0
+# Build the framework from files on disk only (offline): the libocca variants and the engines.
+set -e
+cd "$(dirname "$0")"
+python3 - <<'PY'
+import sys
+sys.path.insert(0, '.')
+from lib import procsim
+procsim.ensure_engine()
+PY
+echo "setup done"
